@@ -302,6 +302,38 @@ class Fn:
                                     carried_locals.add(c2)
                                     c2 = op_local(st[1][1])
                             redirect(Q, val2, [list(x) for x in P['s'] if not (len(x[0]) == 1 and x[0][0] in carried_locals)])
+        # the same for a boolean that is returned (possibly negated) instead of tested: `!(a || b)` stores `true` into a
+        # temporary on the `a` arm and returns its negation at the join -- the constant arm returns a known constant
+        for j in range(n0):
+            J = blocks[j]
+            if J['cu'] or J['t']['k'] != 'ret' or not J['s']:
+                continue
+            last = J['s'][-1]
+            pl, rv = last[0], last[1]
+            if pl != [0] or locals_[0][0] != 'bool':
+                continue
+            neg = False
+            if rv[0] == 'un' and rv[1] == 'Not':
+                neg = True
+                src = op_local(rv[2])
+            elif rv[0] == 'use':
+                src = op_local(rv[1])
+            else:
+                continue
+            if src is None or locals_[src][0] != 'bool' or any(st[0][0] == src for st in J['s'][:-1]):
+                continue
+            for pi in list(preds.get(j, ())):
+                P = blocks[pi]
+                if pi == j or P['t'].get('t') != j or budget[0] <= 0:
+                    continue
+                val, _ = find(P, src)
+                if val is None:
+                    continue
+                out = (not val) if neg else bool(val)
+                folded = [[0], ['use', ['k', 'true' if out else 'false', 'bool', 1 if out else 0, None]]] + list(last[2:])
+                blocks.append({'cu': False, 's': [list(x) for x in J['s'][:-1]] + [folded], 't': dict(J['t'])})
+                P['t'] = dict(P['t'], t=len(blocks) - 1)
+                budget[0] -= 1
         self._succ = None
         self._pred = None
         self._defs = None
